@@ -164,9 +164,11 @@ def render_contract(fn, unit, as_stub):
         for rq in unit["requires"]:
             lines.append(f"        {rq},")
     ens = unit.get("ensures", [])
-    if ens:
+    if any(c is not None for _o, _p, c in ens):
         lines.append("    ensures")
         for oid, _props, clause in ens:
+            if clause is None:
+                continue   # an obligation carried by an injected `assert` (marker /*@obl:<id>*/ in the body), not a postcondition
             clause_lines[sum(x.count("\n") + 1 for x in lines)] = oid
             lines.append(f"        {clause},")
     if unit.get("no_unwind", False):
@@ -252,7 +254,16 @@ def build_file(unit, units_by_id, prelude_text, types_text, machine_text, out_pa
     body_end = body_start + body.count("\n")
     with open(out_path, "w") as f:
         f.write(text)
-    return dict(clause_lines=clause_lines, body_range=(body_start, body_end),
+    # obligations carried by injected proof-only assertions: line of the marker -> obligation id
+    assert_lines = {}
+    for ln, l in enumerate(text.split("\n"), 1):
+        m = re.search(r"/\*@obl:([A-Za-z0-9_.]+)\*/", l)
+        if m:
+            assert_lines[ln] = m.group(1)
+    missing = [o for o, _p, c in unit.get("ensures", []) if c is None and o not in assert_lines.values()]
+    if missing:
+        raise ExtractError(f"{unit['id']}: assertion obligation without marker in the generated text: {missing}")
+    return dict(clause_lines=clause_lines, body_range=(body_start, body_end), assert_lines=assert_lines,
                 contract_range=(start_line, contract_end),
                 notes=fn["notes"] + inj_notes, sha=fn["sha"], stubs=stub_notes, file=out_path)
 
@@ -353,6 +364,11 @@ def classify(unit, meta, run):
         pl = b.get("post_line")
         if b["msg"].startswith("postcondition not satisfied") and pl in meta["clause_lines"]:
             failed.setdefault(meta["clause_lines"][pl], []).append(b)
+            continue
+        # an injected assertion that carries a named obligation
+        hit = [meta.get("assert_lines", {}).get(l) for l in lines_in_file if l in meta.get("assert_lines", {})]
+        if hit and "assertion failed" in b["msg"]:
+            failed.setdefault(hit[0], []).append(b)
             continue
         # located in the body (or a callee precondition): safety obligation
         lo, hi = meta["body_range"]
